@@ -65,6 +65,10 @@ type TxnSchema struct {
 
 func mkUUID(n int) string { return fmt.Sprintf("%08x-0000-4000-8000-%012x", n, n) }
 
+// allowNoRoot: may genTxnSchema produce schemas in which no table is marked as root? (set by the streams whose
+// oracles know the rule: the transaction properties)
+var allowNoRoot = false
+
 func genTxnSchema(rng *rand.Rand, withRefs bool) TxnSchema {
 	nt := 2 + rng.Intn(3)
 	names := []string{"T0", "T1", "T2", "T3"}[:nt]
@@ -222,6 +226,12 @@ func genTxnSchema(rng *rand.Rand, withRefs bool) TxnSchema {
 		}
 		if !found {
 			spec.Tables[0].Cols = append(spec.Tables[0].Cols, ColSpec{Name: "own" + t.Name, Type: ColType{Kind: "set", Key: "uuid", Min: 0, Max: -1}, RefTable: t.Name, RefType: "strong"})
+		}
+	}
+	if allowNoRoot && rng.Intn(6) == 0 {
+		// no table marked as root: RFC 7047 then counts every table as part of the root set
+		for i := range spec.Tables {
+			spec.Tables[i].IsRoot = false
 		}
 	}
 	ts := TxnSchema{Spec: spec, Specs: map[string][]ISpec{}}
@@ -716,7 +726,12 @@ func (g *txnGen) genOp() OperationJ {
 				}
 				m = MutationJ{Col: c.Name, Mutator: mut, Val: v}
 			} else {
-				m = genMutation(rng, c, nil)
+				// (biased towards what a stored row holds in that column: deleting keys and elements that exist)
+				var cur *Value
+				if ex := g.sh.uuids(t.Name); len(ex) > 0 {
+					cur = g.sh.rows[t.Name][ex[rng.Intn(len(ex))]][c.Name]
+				}
+				m = genMutation(rng, c, cur)
 			}
 			m.Val = nativeToOvsValue(m.Val)
 			ms = append(ms, m)
@@ -852,11 +867,29 @@ func genTxn(rng *rand.Rand, ts TxnSchema, sh *shadow, nops int) TxnJ {
 		if op, ok := g.genIndexClaim(); ok {
 			// sometimes the transaction looks at the holder of the values first (select or a wait that
 			// holds): a row it only read is as much in the way as one it never touched
-			switch rng.Intn(4) {
+			switch rng.Intn(5) {
 			case 0:
 				t.Ops = append(t.Ops, OperationJ{Op: "select", Table: op.Table, Where: byUUID(g.claimSrc)})
 			case 1:
 				t.Ops = append(t.Ops, OperationJ{Op: "select", Table: op.Table})
+			case 2:
+				// it asks for the holder by the very values, and for something the holder is not: the lookup
+				// goes through the index and keeps nothing (and must leave the index as it is)
+				if src, ok := g.sh.rows[op.Table][g.claimSrc]; ok {
+					var where []WCondJ
+					for c := range op.Row {
+						for _, ix := range g.ts.Spec.Table(op.Table).Indexes {
+							for _, ic := range ix {
+								if ic == c && src[c] != nil && op.Row[c].Canon() == nativeToOvsValue(src[c]).Canon() {
+									where = append(where, WCondJ{Col: c, Fn: "==", Val: op.Row[c]})
+								}
+							}
+						}
+					}
+					sort.Slice(where, func(i, j int) bool { return where[i].Col < where[j].Col })
+					where = append(where, WCondJ{Col: "_uuid", Fn: "!=", Val: VA(AU(g.claimSrc))})
+					t.Ops = append(t.Ops, OperationJ{Op: "select", Table: op.Table, Where: where})
+				}
 			}
 			t.Ops = append(t.Ops, op)
 		}
